@@ -12,10 +12,12 @@ Vocabulary used in the statements (all defined in `Lemmas/C08.lean`, independent
 All theorems hold for every ordered field `α` (ℚ, ℝ, …), every list length, every operator / `maxnan` stated.
 -/
 import HydroVerif.Lemmas.C08
+import Mathlib.Algebra.Order.Field.Rat
 
 namespace HydroVerif.C08
 
 section agg
+set_option linter.unusedSectionVars false
 variable {α : Type} [Field α] [LinearOrder α] [IsStrictOrderedRing α]
 
 /-! ### what the specification vocabulary means -/
@@ -66,7 +68,6 @@ theorem red_mean_spec (v : List α) (hv : v ≠ []) : red 1 v * (v.length : α) 
     have : 0 < v.length := List.length_pos_iff.mpr hv
     exact_mod_cast this.ne'
   simp [red, hv]
-  field_simp
 
 theorem red_sum_spec (v : List α) : red 0 v = v.sum := by simp [red]
 
@@ -173,6 +174,53 @@ theorem aggregate_sum_conserved (maxnan : Int) (l : List (Int × Option α)) (ou
     simp only [List.map_cons, vals, List.filterMap_cons, h1, id] at h2 ⊢
     rw [h2]
 
+/-- totals in general: the non-NaN outputs add up to the non-missing inputs of exactly the groups that are
+not flushed (those holding at most `maxnan` missing values) -/
+theorem aggregate_sum_conserved_general (maxnan : Int) (l : List (Int × Option α)) (out : List (Option α))
+    (hs : (l.map Prod.fst).Pairwise (· ≤ ·)) (h : aggregate 0 maxnan l = .ok out) :
+    (vals out).sum =
+      (vals ((l.filter fun p => decide ((nmiss (groupOf l p.1) : Int) ≤ maxnan)).map Prod.snd)).sum := by
+  have hne : l ≠ [] := by rintro rfl; simp [aggregate] at h
+  rw [aggregate_spec 0 maxnan le_rfl (by norm_num) l hne hs] at h
+  cases h
+  have hl : (keys l).flatMap (fun k => (groupOf l k).map fun x => (k, x)) = l := by
+    have := groups_keyed l
+    rw [groups_eq l hs] at this
+    simpa [List.flatMap_map] using this
+  generalize hP : (fun k : Int => decide ((nmiss (groupOf l k) : Int) ≤ maxnan)) = P
+  have hfil : (fun p : Int × Option α => decide ((nmiss (groupOf l p.1) : Int) ≤ maxnan)) = fun p => P p.1 := by
+    subst hP; rfl
+  rw [hfil]
+  have hred : ∀ k, reduce 0 maxnan (groupOf l k) = if P k then some ((vals (groupOf l k)).sum) else none := by
+    intro k
+    subst hP
+    unfold reduce
+    by_cases hk : maxnan < (nmiss (groupOf l k) : Int)
+    · have : ¬ ((nmiss (groupOf l k) : Int) ≤ maxnan) := by omega
+      simp [hk, this]
+    · have : ((nmiss (groupOf l k) : Int) ≤ maxnan) := by omega
+      simp [hk, this, red]
+  have hG := congrArg (fun l' : List (Int × Option α) => (l'.filter fun p => P p.1).map Prod.snd) hl
+  rw [← hG]
+  generalize groupOf l = g at hred
+  generalize keys l = ks
+  induction ks with
+  | nil => simp [vals]
+  | cons k t ih =>
+    simp only [List.map_cons, List.flatMap_cons, List.filter_append, List.map_append]
+    have hv : ∀ (a b : List (Option α)), vals (a ++ b) = vals a ++ vals b := by
+      intro a b; simp [vals, List.filterMap_append]
+    rw [hv, List.sum_append, ← ih]
+    have hhead : ((List.map (fun x => (k, x)) (g k)).filter fun p => P p.1).map Prod.snd =
+        if P k then g k else [] := by
+      by_cases hk : P k = true
+      · simp [hk, List.filter_map, Function.comp_def]
+      · simp [hk, List.filter_map, Function.comp_def]
+    rw [hhead, hred k]
+    by_cases hk : P k = true
+    · simp [hk, vals]
+    · simp [hk, vals]
+
 /-- no group is flushed once `maxnan` is at least the total number of missing inputs -/
 theorem aggregate_sum_conserved_of_maxnan_ge (maxnan : Int) (l : List (Int × Option α))
     (hne : l ≠ []) (hs : (l.map Prod.fst).Pairwise (· ≤ ·))
@@ -276,10 +324,10 @@ theorem flathomogen_group_total (maxnan : Int) (l : List (Int × Option α)) (ou
   -- the non-missing outputs are `length (vals g)` copies of the mean
   have hv : vals (g.map (cell maxnan g)) =
       List.replicate (vals g).length ((vals g).sum / ((vals g).length : α)) := by
-    generalize (vals g).sum / ((vals g).length : α) = m at *
-    have : ∀ g' : List (Option α), vals (g'.map fun x => match x with | none => none | some _ => some m) =
+    have : ∀ (m : α) (g' : List (Option α)),
+        vals (g'.map fun x => match x with | none => none | some _ => some m) =
         List.replicate (vals g').length m := by
-      intro g'
+      intro m g'
       induction g' with
       | nil => simp [vals]
       | cons x t ih =>
@@ -289,10 +337,11 @@ theorem flathomogen_group_total (maxnan : Int) (l : List (Int × Option α)) (ou
           simp only [vals, List.map_cons, List.filterMap_cons, id, List.length_cons,
             List.replicate_succ] at ih ⊢
           rw [ih]
-    have hc : (cell maxnan g) = fun x => match x with | none => none | some _ => some m := by
+    have hc : (cell maxnan g) = fun x => match x with
+        | none => none
+        | some _ => some ((vals g).sum / ((vals g).length : α)) := by
       funext x
       cases x <;> simp [cell, hnot]
-      assumption
     rw [hc, this]
   rw [hv, List.sum_replicate, nsmul_eq_mul]
   by_cases hz : (vals g).length = 0
@@ -302,5 +351,170 @@ theorem flathomogen_group_total (maxnan : Int) (l : List (Int × Option α)) (ou
     field_simp
 
 end agg
+
+/-! ### calendar -/
+
+/-- every month of the series is a valid month with 28..31 days -/
+theorem ndaysAt_range (y0 : Int) (m0 j : Nat) : 28 ≤ ndaysAt y0 m0 j ∧ ndaysAt y0 m0 j ≤ 31 := by
+  have h := monthAt_month_valid y0 m0 j
+  exact daysInMonth_range (monthAt y0 m0 j).1 (monthAt y0 m0 j).2 h.1 h.2
+
+/-- the series starts in the requested month … -/
+theorem monthAt_zero (y0 : Int) (m0 : Nat) (h1 : 1 ≤ m0) (h12 : m0 ≤ 12) : monthAt y0 m0 0 = (y0, m0) := by
+  simp only [monthAt, Nat.add_zero]
+  have h1 : (m0 - 1) / 12 = 0 := by omega
+  have h2 : (m0 - 1) % 12 + 1 = m0 := by omega
+  simp [h1, h2]
+
+/-- … and walks through consecutive calendar months: December is followed by January of the next year -/
+theorem monthAt_succ (y0 : Int) (m0 j : Nat) :
+    monthAt y0 m0 (j + 1) =
+      if (monthAt y0 m0 j).2 = 12 then ((monthAt y0 m0 j).1 + 1, 1)
+      else ((monthAt y0 m0 j).1, (monthAt y0 m0 j).2 + 1) := by
+  by_cases h : (monthAt y0 m0 j).2 = 12
+  · rw [if_pos h]
+    simp only [monthAt] at h ⊢
+    have h1 : (m0 - 1 + (j + 1)) / 12 = (m0 - 1 + j) / 12 + 1 := by omega
+    have h2 : (m0 - 1 + (j + 1)) % 12 = 0 := by omega
+    rw [h1, h2]; push_cast; simp; ring
+  · rw [if_neg h]
+    simp only [monthAt] at h ⊢
+    have h1 : (m0 - 1 + (j + 1)) / 12 = (m0 - 1 + j) / 12 := by omega
+    have h2 : (m0 - 1 + (j + 1)) % 12 = (m0 - 1 + j) % 12 + 1 := by omega
+    rw [h1, h2]
+
+/-- a year has 365 days, 366 in a leap year -/
+theorem days_in_year (y : Int) :
+    ((List.range 12).map fun m => daysInMonth y (m + 1)).sum = if isLeap y then 366 else 365 := by
+  cases h : isLeap y <;> simp [List.range, List.range.loop, daysInMonth, h]
+
+/-- the Gregorian leap rule: every 4th year, except centuries not divisible by 400 -/
+theorem isLeap_iff (y : Int) : isLeap y = true ↔ (y % 4 = 0 ∧ (y % 100 ≠ 0 ∨ y % 400 = 0)) := by
+  simp [isLeap]
+
+/-! ### monthly2daily -/
+section m2d
+set_option linter.unusedSectionVars false
+variable {α : Type} [Field α] [LinearOrder α] [IsStrictOrderedRing α]
+
+/-- flat, one month: a non-negative monthly value is spread evenly, nothing is masked, the days add up to it -/
+theorem flatMonth_spec (v : α) (hv : 0 ≤ v) (n : Nat) (hn : 0 < n) :
+    flatMonth 0 (some v) n = List.replicate n (some (v / (n : α))) ∧
+      (vals (flatMonth 0 (some v) n)).sum = v := by
+  have hn' : (0 : α) < (n : α) := by exact_mod_cast hn
+  have hd : ¬ v / (n : α) < 0 := not_lt.mpr (div_nonneg hv hn'.le)
+  have h1 : flatMonth 0 (some v) n = List.replicate n (some (v / (n : α))) := by
+    simp [flatMonth, hd]
+  refine ⟨h1, ?_⟩
+  rw [h1]
+  have : vals (List.replicate n (some (v / (n : α)))) = List.replicate n (v / (n : α)) := by
+    induction n with
+    | zero => simp [vals]
+    | succ k ih => simp [vals, List.replicate_succ]
+  rw [this, List.sum_replicate, nsmul_eq_mul]
+  field_simp
+
+/-- **monthly2daily, flat**: a complete non-negative month-start series gives, month by month, one value per
+calendar day of that month, none missing, adding up to the monthly input -/
+theorem m2dFlat_spec (y0 : Int) (m0 : Nat) (h1 : 1 ≤ m0) (h12 : m0 ≤ 12) (ys : List α) (hne : ys ≠ [])
+    (hpos : ∀ y ∈ ys, 0 ≤ y) :
+    ∃ months, m2dFlat y0 m0 0 (ys.map some) = .ok months ∧ months.length = ys.length ∧
+      ∀ (j : Nat) (hj : j < ys.length) (hj' : j < months.length),
+        months[j].length = ndaysAt y0 m0 j ∧ (∀ o ∈ months[j], o ≠ none) ∧
+        (vals months[j]).sum = ys[j] := by
+  have hm : ¬ (m0 < 1 ∨ 12 < m0) := by omega
+  have hrun : m2dFlat y0 m0 (0 : α) (ys.map some) =
+      .ok (List.zipWith (flatMonth 0) (ys.map some) (monthLengths y0 m0 (ys.map some).length)) := by
+    unfold m2dFlat
+    rw [if_neg hm, if_neg (by simpa using hne)]
+  refine ⟨_, hrun, by simp [monthLengths_length], ?_⟩
+  intro j hj hj'
+  have hy := hpos ys[j] (List.getElem_mem hj)
+  have hn := ndaysAt_pos y0 m0 j
+  obtain ⟨e1, e2⟩ := flatMonth_spec ys[j] hy (ndaysAt y0 m0 j) hn
+  simp only [List.getElem_zipWith, List.getElem_map, List.length_map, monthLengths_getElem]
+  refine ⟨by rw [e1]; simp, ?_, e2⟩
+  rw [e1]
+  intro o ho
+  rw [List.mem_replicate] at ho
+  rw [ho.2]; simp
+
+/-- cubic, one month: one value per day, and the daily differences of the cumulative cubic telescope to the
+monthly value — for ANY derivative constraints `c1`, `c2` -/
+theorem cubicMonth_spec (m : Month α) (hn : 0 < m.n) :
+    (cubicMonth m).length = m.n ∧ (cubicMonth m).sum = m.y := by
+  refine ⟨by simp [cubicMonth], ?_⟩
+  unfold cubicMonth
+  rw [sum_range_diff (cum m) m.n, cum_end m hn, cum_zero]
+  ring
+
+/-- **monthly2daily, cubic**: every month-start series (any values) gives, month by month, one value per
+calendar day of that month adding up to the monthly input -/
+theorem m2dCubic_spec (y0 : Int) (m0 : Nat) (h1 : 1 ≤ m0) (h12 : m0 ≤ 12) (ys : List α) (hne : ys ≠ []) :
+    ∃ months, m2dCubic y0 m0 ys = .ok months ∧ months.length = ys.length ∧
+      ∀ (j : Nat) (hj : j < ys.length) (hj' : j < months.length),
+        months[j].length = ndaysAt y0 m0 j ∧ months[j].sum = ys[j] := by
+  have hm : ¬ (m0 < 1 ∨ 12 < m0) := by omega
+  have hlen : ys.length = (monthLengths y0 m0 ys.length).length := by simp [monthLengths_length]
+  have hyn : (sweep (cubicInit ys (monthLengths y0 m0 ys.length))).map (fun m => (m.y, m.n)) =
+      ys.zip (monthLengths y0 m0 ys.length) := by
+    rw [sweep_yn, cubicInit_yn ys _ hlen]
+  have hl : (sweep (cubicInit ys (monthLengths y0 m0 ys.length))).length = ys.length := by
+    have := congrArg List.length hyn
+    simpa [monthLengths_length] using this
+  have hrun : m2dCubic y0 m0 ys =
+      .ok ((sweep (cubicInit ys (monthLengths y0 m0 ys.length))).map cubicMonth) := by
+    unfold m2dCubic
+    rw [if_neg hm, if_neg hne]
+  refine ⟨_, hrun, by simp [hl], ?_⟩
+  intro j hj hj'
+  simp only [List.getElem_map]
+  have hj2 : j < (sweep (cubicInit ys (monthLengths y0 m0 ys.length))).length := by omega
+  have hel := congrArg (fun l => l[j]?) hyn
+  simp only [List.getElem?_map, List.getElem?_eq_getElem hj2, Option.map_some] at hel
+  rw [List.getElem?_eq_getElem (by simp [monthLengths_length]; exact hj)] at hel
+  simp only [List.getElem_zip, monthLengths_getElem, Option.some.injEq, Prod.mk.injEq] at hel
+  obtain ⟨ey, en⟩ := hel
+  have hn : 0 < (sweep (cubicInit ys (monthLengths y0 m0 ys.length)))[j].n := by
+    rw [en]; exact ndaysAt_pos y0 m0 j
+  obtain ⟨e1, e2⟩ := cubicMonth_spec _ hn
+  exact ⟨by rw [e1, en], by rw [e2, ey]⟩
+
+end m2d
+
+/-! ### non-vacuity: the hypotheses are met by concrete non-trivial inputs (evaluated over ℚ) -/
+
+-- a non-empty, non-decreasing index with negative values, a NaN inside and at the end of a group
+example : ([(1, some (-3)), (1, none), (1, some (-1)), (2, some 5), (2, none)] : List (Int × Option ℚ)) ≠ [] ∧
+    (([(1, some (-3)), (1, none), (1, some (-1)), (2, some 5), (2, none)] : List (Int × Option ℚ)).map
+      Prod.fst).Pairwise (· ≤ ·) := by decide +kernel
+-- sum, mean, max, tail on it with maxnan = 1; maxnan = 0 flushes both groups to NaN
+example : aggregate (α := ℚ) 0 1 [(1, some (-3)), (1, none), (1, some (-1)), (2, some 5), (2, none)]
+    = .ok [some (-4), some 5] := by decide +kernel
+example : aggregate (α := ℚ) 1 1 [(1, some (-3)), (1, none), (1, some (-1)), (2, some 5), (2, none)]
+    = .ok [some (-2), some 5] := by decide +kernel
+example : aggregate (α := ℚ) 2 1 [(1, some (-3)), (1, none), (1, some (-1)), (2, some 5), (2, none)]
+    = .ok [some (-1), some 5] := by decide +kernel
+example : aggregate (α := ℚ) 3 1 [(1, some (-3)), (1, none), (1, some (-1)), (2, some 5), (2, none)]
+    = .ok [some (-1), some 5] := by decide +kernel
+example : aggregate (α := ℚ) 3 0 [(1, some (-3)), (1, none), (1, some (-1)), (2, some 5), (2, none)]
+    = .ok [none, none] := by decide +kernel
+example : keys ([(1, some (-3)), (1, none), (1, some (-1)), (2, some 5), (2, none)] : List (Int × Option ℚ))
+    = [1, 2] := by decide +kernel
+-- a decreasing index exists and is rejected
+example : ¬ (([(2, some 1), (1, some 2)] : List (Int × Option ℚ)).map Prod.fst).Pairwise (· ≤ ·) := by decide +kernel
+example : aggregate (α := ℚ) 0 0 [(2, some 1), (1, some 2)] = .error .decreasingIndex := by decide +kernel
+example : flathomogen (α := ℚ) 0 [(2, some 1), (1, some 2)] = .error .decreasingIndex := by decide +kernel
+-- flathomogen: group means, missing kept, totals 1 and 8 preserved
+example : flathomogen (α := ℚ) 1 [(1, some 1), (1, none), (2, some 3), (2, some 5)]
+    = .ok [some 1, none, some 4, some 4] := by decide +kernel
+-- monthly2daily: February of a leap year then March; each month adds up to its input
+example : m2dFlat (α := ℚ) 2024 2 0 [some 29, some 62]
+    = .ok [List.replicate 29 (some 1), List.replicate 31 (some 2)] := by decide +kernel
+example : (match m2dCubic (α := ℚ) 1900 2 [28, 62] with
+    | .ok ms => ms.map fun d => (d.length, d.sum)
+    | .error _ => []) = [(28, 28), (31, 62)] := by decide +kernel
+example : ndaysAt 2100 2 0 = 28 ∧ ndaysAt 2000 2 0 = 29 ∧ ndaysAt 1999 12 1 = 31 ∧
+    monthAt 1999 12 1 = (2000, 1) := by decide +kernel
 
 end HydroVerif.C08
